@@ -37,7 +37,9 @@ LOCK_ASSUME = [
 
 
 def lock_stages(profile, quick_cases, thorough_cases, thorough_r10=None):
-    q = [{"variant": "lock_r1", "binary": "lock_harness", "profile": profile, "cases_per_worker": quick_cases, "max_seconds": 240}]
+    q = [{"variant": "lock_r1", "binary": "lock_harness", "profile": profile, "cases_per_worker": quick_cases, "max_seconds": 240},
+         {"variant": "lock_r1", "binary": "lock_harness", "profile": profile, "sweep": True, "extra": [], "cases_per_worker": 0, "max_seconds": 240,
+          "engine": "bounded sweep (seed independent): two-thread one-transaction programs x ALL schedules with <= 2 step-level preemptions"}]
     t = [{"variant": "lock_r1", "binary": "lock_harness", "profile": profile, "cases_per_worker": thorough_cases, "max_seconds": 1500},
          {"variant": "lock_r10", "binary": "lock_harness", "profile": profile, "cases_per_worker": thorough_r10 or thorough_cases // 2,
           "max_seconds": 1500},
@@ -72,8 +74,12 @@ THREAD_ASSUME = [
 
 
 def thread_stages(profile, caps_quick, quick_cases, caps_thorough, thorough_cases):
+    sweep = "bounded sweep (seed independent): catalogue of tiny thread/guard/forward histories x ALL schedules with <= 2 step-level preemptions (pairs for two-thread programs)"
     q = [{"variant": f"thread_c{c}", "binary": "thread_harness", "profile": profile, "cases_per_worker": quick_cases, "max_seconds": 120} for c in caps_quick]
+    q += [{"variant": "thread_c2", "binary": "thread_harness", "profile": profile, "sweep": True, "extra": [], "cases_per_worker": 0, "max_seconds": 240, "engine": sweep}]
     t = [{"variant": f"thread_c{c}", "binary": "thread_harness", "profile": profile, "cases_per_worker": thorough_cases, "max_seconds": 900} for c in caps_thorough]
+    t += [{"variant": f"thread_c{c}", "binary": "thread_harness", "profile": profile, "sweep": True, "extra": [], "cases_per_worker": 0, "max_seconds": 900, "engine": sweep}
+          for c in (1, 2, 3)]
     return {"quick": q, "thorough": t}
 
 
